@@ -17,9 +17,9 @@
 
   `clsOKU` is the table fact the round-trip theorem needs about a class (kernel-evaluated per run on
   the regenerated package): attribute names and wire names are distinct, the structure and the
-  unstructure function use the same wire name, a `None`-defaulted attribute that is always written
-  has an annotation whose handler passes `None` through, and a literal-defaulted attribute is
-  always written.
+  unstructure function use the same wire name, and a literal-defaulted attribute is always written.
+  (That an always-written `None`-defaulted attribute can be unstructured when unset follows from the
+  reading itself: `rep` demands that `None` be a typed value of the annotation of an absent property.)
 
   Definitions only.
 -/
@@ -54,11 +54,6 @@ def nrel (E : Env) : Nat → PyTy → Json → Json → Bool
     | .union ts => ts.any (fun t => nrel E n t j j') || Json.beq j j'
     | _ => Json.beq j j'
 
-/-- the handler of this annotation returns `None` unchanged (identity, Optional rule or runtime dispatch) -/
-def PyTy.noneOK : PyTy → Bool
-  | .cls _ | .enum _ | .seq _ | .dict _ _ | .tuple _ => false
-  | _ => true
-
 def namesNodup : List Name → Bool
   | [] => true
   | a :: rest => !(rest.contains a) && namesNodup rest
@@ -66,7 +61,6 @@ def namesNodup : List Name → Bool
 def fieldOKU (f : Field) : Bool :=
   f.wireU == f.wireS &&
   (match f.dflt with
-   | .none => f.omitU || f.ty.noneOK
    | .str _ => !f.omitU
    | _ => true)
 
